@@ -420,10 +420,14 @@ func (t *ctype) method(name string) *method {
 
 // runOnce executes the scenario once on a fresh instance; returns per-worker outcomes and the sanity outcome.
 func runOnce(t *ctype, sc Scenario, rng *core.Rand, tracked bool) (outs []outcome, sanity outcome, sig uint64) {
-	inst := t.mk(sc.State)
+	// The registry is reset BEFORE the instance is made: making it may start a goroutine of the
+	// library (the cache's cleanup goroutine) that takes the instance lock at once, and a reset
+	// that wiped the record of that hold made the holder invisible to the deadlock verdict (one
+	// false "deadlock:Cache+janitor" in roughly 1 700 quick runs' worth of scenarios).
 	if tracked {
 		vsync.BeginScenario(rng.Uint64(), true)
 	}
+	inst := t.mk(sc.State)
 	n := len(sc.Methods)
 	outs = make([]outcome, n)
 	start := make(chan struct{})
